@@ -40,6 +40,15 @@ class Inconclusive(Exception):
     """Raised by a monitor when its own reference is not trustworthy for this case."""
 
 
+class LibraryFailure(Exception):
+    """The library raised while the harness was building the objects of a case through the public constructors:
+    a violation (the promised object was not delivered), carried as a ready violation record."""
+
+    def __init__(self, v):
+        super().__init__(v["msg"])
+        self.v = v
+
+
 class BudgetExceeded(Exception):
     """Raised from inside a probe when an outer call exceeds its logical progress budget."""
 
@@ -88,6 +97,9 @@ def run_one(mod, case, timeout):
     except BudgetExceeded as e:
         res["status"] = "violated"
         res["viol"] = [viol("no_bounded_progress", str(e), site="budget")]
+    except LibraryFailure as e:
+        res["status"] = "violated"
+        res["viol"] = [e.v]
     except Exception as e:  # harness error or unexpected library exception escaping a monitor
         res["status"] = "inconclusive"
         res["reason"] = "harness exception: %s\n%s" % (repr(e)[:300], traceback.format_exc()[-1500:])
